@@ -26,27 +26,25 @@ MInit == \E c \in Cfgs, k \in StartKernels :
             /\ known = {}
             /\ nEdits = 0
 
-MSetChain == \E c \in DesChains : \E rs \in ChainMenu(c) : SetChain(c, rs)
-MRemoveChain == \E c \in DOMAIN desired.chains : RemoveChain(c)
-MSetIns == \E k \in KCh, rs \in InsMenu : SetIns(k, rs)
-MSetApp == \E k \in KCh, rs \in AppMenu : SetApp(k, rs)
+MSetChain == UNCHANGED nEdits /\ \E c \in DesChains : \E rs \in ChainMenu(c) : SetChain(c, rs)
+MRemoveChain == UNCHANGED nEdits /\ \E c \in DOMAIN desired.chains : RemoveChain(c)
+MSetIns == UNCHANGED nEdits /\ \E k \in KCh, rs \in InsMenu : SetIns(k, rs)
+MSetApp == UNCHANGED nEdits /\ \E k \in KCh, rs \in AppMenu : SetApp(k, rs)
 MEdit == nEdits < MaxEdits /\ (EditInApply \/ Idle) /\ nEdits' = nEdits + 1 /\ \E e \in Edits : EditFn(kernel, e) # kernel /\ ExternalEdit(EditFn(kernel, e))
-MTick == belief.stale /\ ~belief.due /\ Tick
-MRestart == Restart
-MApplyBegin == Consistent(desired) /\ ApplyBegin
-MReadOk == Read(TRUE)
-MReadFail == ~phase.envFail /\ Read(FALSE)
+MTick == UNCHANGED nEdits /\ belief.stale /\ ~belief.due /\ Tick
+MRestart == UNCHANGED nEdits /\ Restart
+MApplyBegin == UNCHANGED nEdits /\ Consistent(desired) /\ ApplyBegin
+MReadOk == UNCHANGED nEdits /\ Read(TRUE)
+MReadFail == UNCHANGED nEdits /\ ~phase.envFail /\ Read(FALSE)
 \* the reference reconciler writes only with accurate knowledge
-MWriteOk == ~belief.stale /\ Write(TRUE, FALSE, Target(kernel, desired), IdealTouched(kernel, desired))
-MWriteFail == ~phase.envFail /\ Write(FALSE, TRUE, kernel, {})
+MWriteOk == UNCHANGED nEdits /\ ~belief.stale /\ Write(TRUE, FALSE, Target(kernel, desired), IdealTouched(kernel, desired))
+MWriteFail == UNCHANGED nEdits /\ ~phase.envFail /\ Write(FALSE, TRUE, kernel, {})
 \* an implementation that does not look (no reason to) and does nothing
-MApplyEndOk == (~ConvergenceDue \/ Converged(kernel, desired)) /\ ApplyEnd(TRUE)
-MApplyEndFail == phase.envFail /\ ApplyEnd(FALSE)
+MApplyEndOk == UNCHANGED nEdits /\ (~ConvergenceDue \/ Converged(kernel, desired)) /\ ApplyEnd(TRUE)
+MApplyEndFail == UNCHANGED nEdits /\ phase.envFail /\ ApplyEnd(FALSE)
 
-MNext == \/ MEdit
-         \/ UNCHANGED nEdits /\
-            (\/ MSetChain \/ MRemoveChain \/ MSetIns \/ MSetApp \/ MTick \/ MRestart
-             \/ MApplyBegin \/ MReadOk \/ MReadFail \/ MWriteOk \/ MWriteFail \/ MApplyEndOk \/ MApplyEndFail)
+MNext == \/ MEdit \/ MSetChain \/ MRemoveChain \/ MSetIns \/ MSetApp \/ MTick \/ MRestart
+         \/ MApplyBegin \/ MReadOk \/ MReadFail \/ MWriteOk \/ MWriteFail \/ MApplyEndOk \/ MApplyEndFail
 
 Bound == \A c \in DOMAIN kernel : Len(kernel[c]) <= MaxLen
 MView == <<cfg, desired, kernel, belief, phase, nEdits>>
